@@ -39,6 +39,7 @@ structure Config (K T Op Req Ans : Type) where
   readers : Nat                 -- read holders of rulesTreeMutex
   log     : List Op             -- ghost: committed changes, in commit order
   owners  : List Nat            -- ghost: the threads that committed them
+  rset    : List Nat            -- ghost: the threads holding the read lock
   threads : Nat → Thread K T Op Req Ans
 
 variable {K T Op Req Ans : Type}
@@ -75,16 +76,17 @@ inductive Step (s : Seq K T Op Req Ans) : Config K T Op Req Ans → Config K T O
   | wUnlock (c i op st') (h : c.threads i = writer op .rwReleased st') (hl : c.wlock = some i) :
       Step s c { c with wlock := none, threads := upd c.threads i (writer op .doneOk st') }
   | rLock (c i rq) (h : c.threads i = reader rq .idle none 0 0) (free : c.rww = none) :
-      Step s c { c with readers := c.readers + 1,
+      Step s c { c with readers := c.readers + 1, rset := i :: c.rset,
                         threads := upd c.threads i (reader rq .rHeld none c.log.length 0) }
   | rSearch (c i rq st) (h : c.threads i = reader rq .rHeld none st 0) :
       Step s c { c with threads := upd c.threads i (reader rq .searched (some (s.look c.index rq)) st c.log.length) }
   | rUnlock (c i rq a st n) (h : c.threads i = reader rq .searched (some a) st n) :
-      Step s c { c with readers := c.readers - 1, threads := upd c.threads i (reader rq .done (some a) st n) }
+      Step s c { c with readers := c.readers - 1, rset := c.rset.erase i,
+                        threads := upd c.threads i (reader rq .done (some a) st n) }
 
 /-- initial configurations: nothing locked, nothing committed, every thread at its start -/
 def Initial (s : Seq K T Op Req Ans) (c : Config K T Op Req Ans) : Prop :=
-  (c.known, c.index) = s.init ∧ c.wlock = none ∧ c.rww = none ∧ c.readers = 0 ∧ c.log = [] ∧ c.owners = [] ∧
+  (c.known, c.index) = s.init ∧ c.wlock = none ∧ c.rww = none ∧ c.readers = 0 ∧ c.log = [] ∧ c.owners = [] ∧ c.rset = [] ∧
   ∀ i, (∃ op loc, c.threads i = .writer op .idle loc) ∨ (∃ rq, c.threads i = .reader rq .idle none 0 0)
 
 inductive Reachable (s : Seq K T Op Req Ans) : Config K T Op Req Ans → Prop
